@@ -1,6 +1,7 @@
 package harness
 
 import (
+	crand "crypto/rand"
 	"encoding/json"
 	"flag"
 	"fmt"
@@ -11,6 +12,7 @@ import (
 	"runtime"
 	"runtime/debug"
 	"strings"
+	"sync"
 	"testing"
 	"testing/synctest"
 	"time"
@@ -126,6 +128,9 @@ func ExecPlan(t *testing.T, eng Engine, p *Plan, work string) (o *Outcome) {
 	scratch := filepath.Join(work, fmt.Sprintf("r%d-%d-%d", os.Getpid(), p.Run, time.Now().UnixNano()))
 	os.MkdirAll(scratch, 0o755)
 	defer os.RemoveAll(scratch)
+	// crypto/rand is replaced by a DRBG keyed from the plan, so that age
+	// ciphertexts (and therefore ciphertext blobrefs) replay exactly
+	crand.Reader = &drbg{r: simcore.NewRand(simcore.Mix(p.Seed, p.Prop, p.Run, "crand"))}
 	env := sim.NewEnv()
 	env.Faults = append([]sim.Fault(nil), p.Faults...)
 	rc := &RunCtx{Scratch: scratch, Env: env}
@@ -176,6 +181,18 @@ func ExecPlan(t *testing.T, eng Engine, p *Plan, work string) (o *Outcome) {
 		o = &Outcome{Inconclusive: "bubble ended without outcome"}
 	}
 	return o
+}
+
+type drbg struct {
+	mu sync.Mutex
+	r  *simcore.Rand
+}
+
+func (d *drbg) Read(b []byte) (int, error) {
+	d.mu.Lock()
+	d.r.Bytes(b)
+	d.mu.Unlock()
+	return len(b), nil
 }
 
 func init() {
